@@ -99,7 +99,14 @@ def drive(args):
                 dep = lambda r: {(r['lhs'], e['lab']) for e in r['edges'] if not a['els'][e['lab']]['t']}
                 cands = [ri for ri, r in enumerate(a['rules'])
                          if dep(r) - set().union(*[dep(q) for qi, q in enumerate(a['rules']) if qi != ri])]
-                defer = [rng.choice(cands)] if cands else 1
+                if cands:
+                    # the deferred rule is added LAST: the grammar under test lists it after the others, and the judge must
+                    # see the rules in that order (the recorded zero-cycle finding is about which maximal rule comes first)
+                    ri0 = rng.choice(cands)
+                    a = dict(a)
+                    a['rules'] = [r for k, r in enumerate(a['rules']) if k != ri0] + [a['rules'][ri0]]
+                    c['ag'] = {k: a[k] for k in ('nls', 'els', 'start', 'rules', 'wmp')}
+                defer = 1
             g, info = AG.build_fgg(a, 'mp', dtype, implicit_ids=(i % 3 == 0), fresh_labels=fresh, start_last=(i % 4 == 2),
                                    defer_rules=defer)
             sr = fggs.ViterbiSemiring(dtype=dtype)
